@@ -565,7 +565,114 @@ fn run_job(rep: &Reporter, kind: StoreKind, bodies: &[Body], dir: &str, bound: u
     }
 }
 
+// ---------------------------------------------------------------------------------------------
+// parallel adaptors: `.parallel()` on every kind of iterator must hand out exactly the items of the sequential iteration
+// (rayon collects an indexed parallel iterator in order, so the comparison is on the whole sequence)
+
+fn render_ann(a: &ResultItem<Annotation>) -> String {
+    format!("A{}", a.handle().as_usize())
+}
+fn render_data(d: &ResultItem<AnnotationData>) -> String {
+    format!("D{}/{}", d.set().handle().as_usize(), d.handle().as_usize())
+}
+fn render_key(k: &ResultItem<DataKey>) -> String {
+    format!("K{}/{}", k.set().handle().as_usize(), k.handle().as_usize())
+}
+fn render_res(r: &ResultItem<TextResource>) -> String {
+    format!("R{}", r.handle().as_usize())
+}
+fn render_set(d: &ResultItem<AnnotationDataSet>) -> String {
+    format!("S{}", d.handle().as_usize())
+}
+fn render_tsel(t: &ResultTextSelection) -> String {
+    format!("T{}[{}:{}]", t.resource().handle().as_usize(), t.begin(), t.end())
+}
+
+pub fn parallel_family(rep: &Reporter, only_store: Option<&str>) -> (u64, u64) {
+    use rayon::prelude::*;
+    let (mut nstores, mut ncmp) = (0u64, 0u64);
+    for (si, (name, hist)) in crate::c08::store_histories().iter().enumerate() {
+        if only_store.map(|o| o != *name).unwrap_or(false) {
+            continue;
+        }
+        let (store, outs) = crate::ops::replay_real(hist);
+        if !outs.iter().all(|o| o.is_ok()) {
+            continue;
+        }
+        nstores += 1;
+        let mut k = 0u64;
+        let mut cmp = |itemtype: &str, source: String, seq: Result<Vec<String>, String>, par: Result<Vec<String>, String>| {
+            k += 1;
+            let symptom = match (&seq, &par) {
+                (Ok(a), Ok(b)) if a == b => return,
+                (Ok(a), Ok(b)) if b.len() < a.len() => "items-missing".to_string(),
+                (Ok(a), Ok(b)) if b.len() > a.len() => "items-extra".to_string(),
+                (Ok(_), Ok(_)) => "other-items-or-order".to_string(),
+                (Err(_), _) => return, // the sequential iteration itself panics: not this family's finding
+                (_, Err(p)) => format!("panic:{}", crate::util::msg_class(p)),
+            };
+            // source class: the receiver without its handle
+            let sclass: String = source.chars().filter(|c| !c.is_ascii_digit()).collect();
+            rep.fail(
+                &format!("parallel-adaptor|{}|{}|{}", itemtype, sclass, symptom),
+                ((si as u64) << 20) + k,
+                || format!("store {}: {} sequentially gives {:?}, with .parallel() {:?}", name, source, seq, par),
+                || json!({"parallel_family": name, "source": source}),
+            );
+        };
+        macro_rules! both {
+            ($itemtype:expr, $source:expr, $mk:expr, $render:expr) => {
+                cmp($itemtype, $source, catch(|| $mk.map(|x| $render(&x)).collect::<Vec<String>>()), catch(|| $mk.parallel().map(|x| $render(&x)).collect::<Vec<String>>()));
+            };
+        }
+        both!("annotation", "store.annotations()".to_string(), store.annotations(), render_ann);
+        both!("resource", "store.resources()".to_string(), store.resources(), render_res);
+        both!("dataset", "store.datasets()".to_string(), store.datasets(), render_set);
+        both!("data", "store.data()".to_string(), store.data(), render_data);
+        both!("key", "store.keys()".to_string(), store.keys(), render_key);
+        for ds in store.datasets() {
+            let h = ds.handle().as_usize();
+            both!("key", format!("dataset{}.keys()", h), ds.keys(), render_key);
+            both!("data", format!("dataset{}.data()", h), ds.data(), render_data);
+            for key in ds.keys() {
+                let kh = key.handle().as_usize();
+                both!("data", format!("dataset{}.key{}.data()", h, kh), key.data(), render_data);
+                both!("annotation", format!("dataset{}.key{}.annotations()", h, kh), key.annotations(), render_ann);
+            }
+            for d in ds.data() {
+                let dh = d.handle().as_usize();
+                both!("annotation", format!("dataset{}.data{}.annotations()", h, dh), d.annotations(), render_ann);
+            }
+        }
+        for r in store.resources() {
+            let h = r.handle().as_usize();
+            both!("textselection", format!("resource{}.textselections()", h), r.textselections(), render_tsel);
+            both!("annotation", format!("resource{}.annotations()", h), r.annotations(), render_ann);
+            both!("annotation", format!("resource{}.annotations_as_metadata()", h), r.annotations_as_metadata(), render_ann);
+        }
+        for a in store.annotations() {
+            let h = a.handle().as_usize();
+            both!("data", format!("annotation{}.data()", h), a.data(), render_data);
+            both!("key", format!("annotation{}.keys()", h), a.keys(), render_key);
+            both!("resource", format!("annotation{}.resources()", h), a.resources(), render_res);
+            both!("dataset", format!("annotation{}.datasets()", h), a.datasets(), render_set);
+            both!("textselection", format!("annotation{}.textselections()", h), a.textselections(), render_tsel);
+            both!("annotation", format!("annotation{}.annotations()", h), a.annotations(), render_ann);
+            both!("annotation", format!("annotation{}.annotations_in_targets(One)", h), a.annotations_in_targets(AnnotationDepth::One), render_ann);
+            // chained adaptors: the data of several annotations in a row, and their keys
+            both!("data", format!("annotation{}.annotations().data()", h), a.annotations().data(), render_data);
+        }
+        both!("data", "store.annotations().data()".to_string(), store.annotations().data(), render_data);
+        both!("key", "store.annotations().keys()".to_string(), store.annotations().keys(), render_key);
+        both!("textselection", "store.annotations().textselections()".to_string(), store.annotations().textselections(), render_tsel);
+        both!("annotation", "store.data().annotations()".to_string(), store.data().annotations(), render_ann);
+        ncmp += k;
+    }
+    (nstores, ncmp)
+}
+
 pub fn run(rep: &Reporter) -> Coverage {
+    let (pstores, pcmp) = parallel_family(rep, None);
     stam::verif::set_yield_callback(Some(yield_cb));
     let dir = crate::util::work_dir("c20");
     let bound = rep.tier.pick(2, 3);
@@ -622,9 +729,11 @@ pub fn run(rep: &Reporter) -> Coverage {
     cov.evaluations = total;
     cov.traces_validated = total;
     cov.distinct_nontrivial = per.iter().filter(|p| p["schedules"].as_u64().unwrap_or(0) > 1).count() as u64;
-    cov.rule = format!("for every store kind (inline; stand-off members loaded from files; stand-off with a changed dataset; stand-off loaded with a use_include(false) configuration; stand-off written as CBOR and loaded back; built through the API with an unsaved stand-off *.json resource) and every multiset of {} reader bodies (store / dataset / second dataset / resource serialisation to a string, query + parallel iteration; in pairs also a store serialisation with a configuration derived from that of the store): all schedules of the real code with at most {} preemptions (CHESS-style: switching away from a still-runnable thread costs 1; triples of readers only on the inline / stand-off / changed stand-off stores), threads gated at the H2 yield points before every lock operation on the shared serialisation mode and changed flags; oracle: each thread's return value equals its value when run alone on a fresh copy of the store, and a store serialisation afterwards equals the sequential one; states = distinct outcome vectors, transitions = schedules executed; non-trivial = thread sets with more than one schedule", rep.tier.pick("2", "2 and 3"), bound);
+    cov.rule = format!("for every store kind (inline; stand-off members loaded from files; stand-off with a changed dataset; stand-off loaded with a use_include(false) configuration; stand-off written as CBOR and loaded back; built through the API with an unsaved stand-off *.json resource) and every multiset of {} reader bodies (store / dataset / second dataset / resource serialisation to a string, query + parallel iteration; in pairs also a store serialisation with a configuration derived from that of the store): all schedules of the real code with at most {} preemptions (CHESS-style: switching away from a still-runnable thread costs 1; triples of readers only on the inline / stand-off / changed stand-off stores), threads gated at the H2 yield points before every lock operation on the shared serialisation mode and changed flags; oracle: each thread's return value equals its value when run alone on a fresh copy of the store, and a store serialisation afterwards equals the sequential one; states = distinct outcome vectors, transitions = schedules executed; non-trivial = thread sets with more than one schedule; in addition (coverage.parallel_adaptors) every .parallel() adaptor is compared with the sequential iteration it wraps on each query store of C08", rep.tier.pick("2", "2 and 3"), bound);
     cov.samples = samples;
     cov.exhaustive = !capped_any;
+    cov.evaluations += pcmp;
+    cov.extra.insert("parallel_adaptors".into(), json!({"stores": pstores, "comparisons": pcmp, "rule": "on each of the query stores of C08 (incl. two datasets, two resources, complex and nested targets): every iterator the store, each dataset, key, data item, resource and annotation hands out, and the chained adaptors over all annotations / all data, is collected sequentially and through .parallel(): the two sequences must be identical (deterministic: rayon collects a vector-backed parallel iterator in order)"}));
     cov.extra.insert("preemption_bound".into(), json!(bound));
     cov.extra.insert("schedule_cap_per_thread_set".into(), json!(cap));
     cov.extra.insert("max_yield_points_per_thread".into(), json!(max_yields));
@@ -638,6 +747,12 @@ pub fn run(rep: &Reporter) -> Coverage {
 }
 
 pub fn replay(rep: &Reporter, case: &Value) {
+    if let Some(name) = case["parallel_family"].as_str() {
+        println!("replay C20 parallel adaptors on store {}", name);
+        let (_, n) = parallel_family(rep, Some(name));
+        println!("  {} comparisons", n);
+        return;
+    }
     stam::verif::set_yield_callback(Some(yield_cb));
     let kind = match case["store"].as_str().unwrap_or("") {
         "Inline" => StoreKind::Inline,
